@@ -29,6 +29,8 @@ pub enum Act {
     DropRange { lo: Bytes, hi: Bytes },
     /// actor-level pause (pure scheduling point)
     Pause,
+    /// auditor: structural audit of whatever version is published right now
+    Audit,
 }
 
 #[derive(Clone, Debug, serde::Serialize, serde::Deserialize, Default)]
@@ -57,6 +59,8 @@ enum Ev {
     MaintBegin { tid: u32, what: &'static str, ev: u64 },
     MaintEnd { tid: u32, ev: u64 },
     Error { tid: u32, what: String, ev: u64 },
+    AuditFail { tid: u32, version: u64, what: String, ev: u64 },
+    AuditOk { shape: u64 },
 }
 
 struct SharedState {
@@ -173,6 +177,15 @@ pub fn gen_conc(prop: &PropDef, seed: u64, tier: &str) -> RunSpec {
         }
         threads.push(("exclusive".into(), a));
     }
+    // optional auditor
+    if r.chance(1, 2) {
+        let mut a = Vec::new();
+        for _ in 0..(2 + r.usize(5)) * scale {
+            a.push(Act::Audit);
+            a.push(Act::Pause);
+        }
+        threads.push(("auditor".into(), a));
+    }
     let pct = r.chance(1, 2);
     let est_steps = 600u64 * scale as u64;
     let cs = ConcSpec {
@@ -223,6 +236,19 @@ fn thread_body(
         sched::yield_point("actor:next");
         match act {
             Act::Pause => {}
+            Act::Audit => {
+                let (a, probs) = audit::audit_tree_checked(&tree);
+                if probs.is_empty() {
+                    shared.push(Ev::AuditOk { shape: a.shape_hash() });
+                } else {
+                    shared.push(Ev::AuditFail {
+                        tid,
+                        version: a.version_id,
+                        what: probs.join("; "),
+                        ev: shared.next_ev(),
+                    });
+                }
+            }
             Act::Write(items) => {
                 let s = seqno.next();
                 shared.push(Ev::WriteBegin {
@@ -580,6 +606,27 @@ pub fn run_conc(prop: &PropDef, spec: &RunSpec, workdir: &Path, index: u64) -> R
                 Ev::SnapOpen { tid, s, ev } => {
                     snap_ev.insert((*tid, *s), *ev);
                 }
+                Ev::AuditOk { shape } => {
+                    stats.states.insert(*shape);
+                    stats.inc("conc_audits_of_published_versions");
+                }
+                Ev::AuditFail { tid, version, what, ev } => {
+                    let class = if what.contains("consulted first") {
+                        "structure/recency-order"
+                    } else if what.contains("not disjoint") || what.contains("spans tables") {
+                        "structure/run-disjointness"
+                    } else if what.contains("does not exist") {
+                        "structure/missing-file"
+                    } else {
+                        "structure/metadata"
+                    };
+                    outcome = fail(
+                        "structure",
+                        class,
+                        format!("auditor thread {tid} at event {ev}: published version {version}: {what}"),
+                    );
+                    break;
+                }
                 Ev::Error { tid, what, .. } => {
                     outcome = fail(
                         "error",
@@ -721,6 +768,11 @@ pub fn run_conc(prop: &PropDef, spec: &RunSpec, workdir: &Path, index: u64) -> R
             }
             let a = audit::audit_tree(&tree);
             stats.states.insert(a.shape_hash());
+            if a.shape.first().is_some_and(|l| l.len() >= 2)
+                || a.shape.iter().any(|l| l.iter().any(|&n| n >= 2))
+            {
+                stats.inc("audit_nontrivial_shape");
+            }
             let probs = a.check_structure();
             if !probs.is_empty() {
                 let class = if probs[0].contains("consulted first") {
